@@ -308,6 +308,13 @@ func c15Execute(sc *C15Scenario, c *core.Ctx, concurrent bool) (*c15exec, sched.
 						fail("flush: %v", err)
 						return
 					}
+				case "sortedrg":
+					hi := min(pos+op.N, tdata.Len())
+					if err := writeSortedRowGroup(w, tsh, tdata, pos, hi); err != nil {
+						fail("write sorted row group: %v", err)
+						return
+					}
+					pos = hi
 				}
 			}
 			_ = wr
